@@ -128,10 +128,19 @@ def check_premise(repo: Repo, rel: str, qual: str, target: str, kind: str, node:
                 if isinstance(n, ast.Attribute) and n.attr == "log" and isinstance(n.ctx, ast.Load):
                     q = qualname_of(m2, n)
                     if not q.startswith("Optimizer."):
+                        # write-only uses: the receiver of append / extend / clear, a test against None / for truth
+                        # (is a log being kept at all?), handed on under the same name (log=self.log)
                         par = m2.parents.get(n)
-                        if not (isinstance(par, ast.Attribute) and par.attr in ("append", "clear")):
-                            return False, f"log is read in {rel2}::{q}"
-        return True, "log never read outside Optimizer"
+                        if isinstance(par, ast.Attribute) and par.attr in ("append", "clear", "extend"):
+                            continue
+                        if isinstance(par, ast.Compare) and all(isinstance(c, ast.Constant) and c.value is None for c in par.comparators) and all(isinstance(o, (ast.Is, ast.IsNot)) for o in par.ops):
+                            continue
+                        if isinstance(par, ast.keyword) and par.arg == "log":
+                            continue
+                        if isinstance(par, ast.IfExp) and par.body is n and isinstance(m2.parents.get(par), ast.keyword) and m2.parents.get(par).arg == "log":
+                            continue
+                        return False, f"log is read in {rel2}::{q}"
+        return True, "log is write-only outside Optimizer (appended to, cleared, tested against None, handed on as log=)"
     if kind == "fresh-receiver":
         # every call site of OptimizedChoice.update passes a receiver that is a constructor call,
         # a parameter that is itself always bound to a constructor call, or `new_expr` (same)
